@@ -26,7 +26,7 @@ RULE = (
 ASSUMPTIONS = ["'raises an error' = any exception from bytes()/flush()/instantiate(); the SDK may also reject earlier (counted as rejected)"]
 SHARDS = {"quick": 1, "thorough": 8}
 
-OUT_REGIDX = [16, 17, 31, 63, 64, 255, 256, -1]
+OUT_REGIDX = [16, 17, 31, 63, 64, 255, 256, -1, 100, 105, 120, 150, 1000, 1500, 10000]
 OUT_U8 = [-1, 256, 257, 300, 511, 65536, -128, -256]
 OUT_I32 = [2**31, 2**31 + 1, -(2**31) - 1, 2**32, 2**32 + 5, -(2**32), 2**40 + 3]
 OUT_APP = [65536, 65537, -1, 70000, 2**32]
